@@ -441,12 +441,17 @@ def r07_5(ctx):
                 return c
         return None
     c = insert_pos(ev.node, 'x')
-    ctx.decide('R07.5', G + '._BoundaryFunction.eval', src(c) if c else 'insert', (src(c.args[0]).replace(' ', '') == 'len(x)-self.axis') if c else None, c or ev.node,
-               'xyz-ordered point: zyx axis a sits at position len(x)-a of the reduced point')
+    if c is not None and c.args:
+        ctx.formula('R07.5', G + '._BoundaryFunction.eval', c.args[0], 'len(x) - self.axis', c,
+                    'xyz-ordered point: zyx axis a sits at position len(x)-a of the reduced point', label=src(c))
+    else:
+        ctx.undecided('R07.5', G + '._BoundaryFunction.eval', 'insert', ev.node, 'no insert call')
     for fn in (ge, gj):
         c = insert_pos(fn.node, 'gridaxes')
-        ctx.decide('R07.5', fn.qual, src(c) if c else 'insert', (src(c.args[0]) == 'self.axis') if c else None, c or fn.node,
-                   'zyx-ordered grid axes: insert at the axis itself')
+        if c is not None and c.args:
+            ctx.formula('R07.5', fn.qual, c.args[0], 'self.axis', c, 'zyx-ordered grid axes: insert at the axis itself', label=src(c))
+        else:
+            ctx.undecided('R07.5', fn.qual, 'insert', fn.node, 'no insert call')
         sq = [x for x in ast.walk(fn.node) if isinstance(x, ast.Call) and isinstance(x.func, ast.Attribute) and x.func.attr == 'squeeze']
         ctx.decide('R07.5', fn.qual, src(sq[0]) if sq else 'squeeze', (src(sq[0].args[0]) == 'self.axis') if sq and sq[0].args else None, sq[0] if sq else fn.node,
                    'the singleton grid axis is removed again')
@@ -497,9 +502,8 @@ def r07_6(ctx):
         npts = src(ls[0].args[2]) if len(ls[0].args) > 2 else None
         ok_ls = src(ls[0].args[0]) == '0' and src(ls[0].args[1]) == 'alpha' and npts == str(k)
         ctx.decide('R07.6', q, src(ls[0]), ok_ls, ls[0], 'control polygon angles 0..alpha in %d points' % k)
-        ang = src(cs[0].args[0]).replace(' ', '')
-        ctx.decide('R07.6', q, 'weight ' + src(cs[0]), ang == 'alpha/%d' % (k - 1), cs[0],
-                   'inner weight is cos of half the segment angle = alpha/(k-1)')
+        ctx.formula('R07.6', q, cs[0].args[0], 'alpha / %d' % (k - 1), cs[0],
+                    'inner weight is cos of half the segment angle = alpha/(k-1)', label='weight ' + src(cs[0]))
         nf = [c for c in ast.walk(fi.node) if isinstance(c, ast.Call) and call_name(c) == 'NurbsFunc']
         pm = kwarg(nf[0], 'premultiplied', 3) if nf else None
         ctx.decide('R07.6', q, 'premultiplied=%s' % src(pm), isinstance(pm, ast.Constant) and pm.value is True, nf[0] if nf else fi.node,
